@@ -86,6 +86,7 @@ type Input struct {
 	UnblindAll bool   `json:"unblind_all"`
 	Boost      uint64 `json:"boost"`
 	Trace      bool   `json:"trace,omitempty"`
+	Plain      bool   `json:"plain,omitempty"` // the accounts are local keys (handed a signing root), not remote protecting signers
 	// environment
 	Accounts    *[]AccEntry `json:"accounts"` // nil: the accounts provider fails
 	DomRandao   bool        `json:"dom_randao"`
@@ -255,7 +256,7 @@ func runCase(t *testing.T, in *Input) Obs {
 
 			duty := beaconblockproposer.NewDuty(phase0.Slot(in.Slot), phase0.ValidatorIndex(in.Validator))
 			if in.PreAccount != nil {
-				duty.SetAccount(&account{id: *in.PreAccount, rec: rec, in: in, tab: w.tab})
+				duty.SetAccount(w.newAccount(*in.PreAccount))
 			}
 			duty.SetRandaoReveal(sigOf(in.PreRandao))
 			obs.PrepOK = true
@@ -566,6 +567,7 @@ func gen(r *Rand) Input {
 		Head:     uint64(r.Range(1, 1<<30)),
 		Deadline: uint64(r.Range(1, 12))*1000 + 999,
 		Trace:    r.Chance(1, 10),
+		Plain:    r.Chance(1, 4),
 	}
 	if r.Chance(1, 8) {
 		// the last or first slot of an epoch
@@ -749,6 +751,7 @@ func count(col *Collector, in *Input, o *Obs) {
 	} else {
 		col.Count("proposal:error")
 	}
+	col.Count(fmt.Sprintf("account:plain=%v", in.Plain))
 	col.Count("graffiti:" + in.Graffiti)
 	col.Count("auction:" + in.Auction)
 	col.Count(fmt.Sprintf("relays:%d", len(in.Relays)))
@@ -807,7 +810,7 @@ func TestC05(t *testing.T) {
 			}
 		}
 		id := col.NextID()
-		col.Add(Case{Term: caseTerm(id, in, &obs), Key: envTerm(in) + fmt.Sprint(in.Slot, in.Validator, in.DoPrepare, in.PreAccount != nil, in.PreRandao, in.UnblindAll),
+		col.Add(Case{Term: caseTerm(id, in, &obs), Key: envTerm(in) + fmt.Sprint(in.Slot, in.Validator, in.DoPrepare, in.PreAccount != nil, in.PreRandao, in.UnblindAll, in.Plain, in.Trace),
 			Nontrivial: nt, Tags: tagsOf(in), Sample: map[string]any{"input": in, "observed": obs}})
 	}
 	if err := col.Flush(); err != nil {
